@@ -1,5 +1,6 @@
 import WalrusVerif.Lemmas.SpecLemmas
 import WalrusVerif.Props.C01
+import WalrusVerif.Props.C06
 /-!
 # C15 — topic entry counts equal appended minus consumed entries
 
@@ -51,6 +52,118 @@ theorem C15_peeks_not_counted (t t' : Topic) (m : Nat) (out : Out) (rest : List 
     consumedCount t ((.bread t' m false none, out) :: rest) = consumedCount t rest ∧
     consumedCount t ((.bread t' m cp (some req), out) :: rest) = consumedCount t rest := by
   refine ⟨?_, ?_, ?_⟩ <;> cases out <;> (try cases cp) <;> simp [consumedCount]
+
+/-! ### the restart clause (StrictlyAtOnce, clean restarts, friendly histories) -/
+
+/-- the state reached after a list of operations and restarts -/
+def execR (c : Cfg) : AState → List ROp → AState
+  | s, [] => s
+  | s, op :: rest => execR c (stepR c s op).1 rest
+
+theorem runFromR_append (c : Cfg) (s : AState) (a b : List ROp) :
+    runFromR c s (a ++ b) = runFromR c s a ++ runFromR c (execR c s a) b := by
+  induction a generalizing s with
+  | nil => rfl
+  | cons x r ih => simp [runFromR, execR, ih]
+
+theorem runFromR_length (c : Cfg) (s : AState) (a : List ROp) : (runFromR c s a).length = a.length := by
+  induction a generalizing s with
+  | nil => rfl
+  | cons x r ih => simp [runFromR, ih]
+
+/-- a history with its restart events removed -/
+def stripR : List (ROp × Out) → List (AOp × Out)
+  | [] => []
+  | (.restart, _) :: r => stripR r
+  | (.op o, out) :: r => (o, out) :: stripR r
+
+theorem stripR_append (a b : List (ROp × Out)) : stripR (a ++ b) = stripR a ++ stripR b := by
+  induction a with
+  | nil => rfl
+  | cons x r ih =>
+    obtain ⟨op, out⟩ := x
+    cases op <;> simp [stripR, ih]
+
+/-- a history accepted with restarts is accepted without them: a restart changes nothing the specification sees -/
+theorem acceptsR_strip (h : List (ROp × Out)) (σ : Spec) (ha : acceptsR σ h) : accepts σ (stripR h) := by
+  induction h generalizing σ with
+  | nil => trivial
+  | cons x rest ih =>
+    obtain ⟨rop, out⟩ := x
+    cases rop with
+    | restart =>
+      cases out <;> simp only [acceptsR] at ha
+      exact ih σ ha
+    | op o =>
+      cases o with
+      | append t p =>
+        cases out <;> simp only [acceptsR] at ha <;> simp only [stripR, accepts]
+        · exact ih _ ha
+        · exact ih _ ha
+      | batch t ps =>
+        cases out <;> simp only [acceptsR] at ha <;> simp only [stripR, accepts]
+        · exact ih _ ha
+        · exact ih _ ha
+      | next t cp =>
+        cases out <;> simp only [acceptsR] at ha <;> simp only [stripR, accepts]
+        exact ⟨ha.1, ih _ ha.2⟩
+      | bread t m cp off =>
+        cases off with
+        | none =>
+          cases out <;> simp only [acceptsR] at ha <;> simp only [stripR, accepts]
+          exact ⟨ha.1, ih _ ha.2⟩
+        | some r =>
+          cases out <;> simp only [acceptsR] at ha <;> simp only [stripR, accepts]
+          exact ih _ ha
+      | count t =>
+        cases out <;> simp only [acceptsR] at ha <;> simp only [stripR, accepts]
+        exact ⟨ha.1, ih _ ha.2⟩
+
+theorem friendlyFrom_snoc_op (c : Cfg) (ops : List ROp) (s : AState) (o : AOp) :
+    friendlyFrom c s (ops ++ [.op o]) = friendlyFrom c s ops := by
+  induction ops generalizing s with
+  | nil => simp [friendlyFrom]
+  | cons x r ih =>
+    cases x with
+    | op o' => simp only [List.cons_append, friendlyFrom]; exact ih _
+    | restart => simp only [List.cons_append, friendlyFrom]; rw [ih]
+
+/-- **C15 with restarts (StrictlyAtOnce, clean restarts).** After any history of operations with restart events
+anywhere in it (any number, in the region where the restart model describes the code: `friendlyFrom`), `count`
+reports exactly (entries of successful appends) - (entries returned by consuming reads), both read off the history
+with the restarts taken out: a restart neither forgets appended entries nor brings consumed ones back. -/
+theorem C15_with_restarts (c : Cfg) (hc : CfgOK c) (ops : List ROp) (hl : ∀ op ∈ ops, op.WithinLimits c)
+    (friendly : friendlyFrom c {} ops = true) (t : Topic) :
+    ∃ n, (runR c (ops ++ [.op (.count t)])).getLast? = some (.num n) ∧
+      n = appendedCount t (stripR (ops.zip (runR c ops))) - consumedCount t (stripR (ops.zip (runR c ops))) := by
+  have hl' : ∀ op ∈ ops ++ [ROp.op (.count t)], op.WithinLimits c := by
+    intro op h
+    rcases List.mem_append.mp h with h | h
+    · exact hl op h
+    · simp at h; subst h; trivial
+  have hacc := Props.C06.C06_restarts_invisible c hc (ops ++ [.op (.count t)]) hl'
+    (by rw [friendlyFrom_snoc_op]; exact friendly)
+  have hrun : runR c (ops ++ [.op (.count t)]) = runR c ops ++ [.num ((execR c {} ops).topic t).count] := by
+    unfold runR
+    rw [runFromR_append]
+    rfl
+  rw [hrun] at hacc ⊢
+  have hzip : (ops ++ [ROp.op (.count t)]).zip (runR c ops ++ [Out.num ((execR c {} ops).topic t).count]) =
+      ops.zip (runR c ops) ++ [(ROp.op (.count t), Out.num ((execR c {} ops).topic t).count)] := by
+    rw [List.zip_append (by unfold runR; rw [runFromR_length])]
+    rfl
+  rw [hzip] at hacc
+  refine ⟨((execR c {} ops).topic t).count, by simp, ?_⟩
+  have hs := acceptsR_strip _ _ hacc
+  rw [stripR_append] at hs
+  have := accepts_count t _ (stripR (ops.zip (runR c ops))) Spec.init (by simp [Spec.init]) hs
+  simpa [Spec.init] using this
+
+/-- the restart clause on a concrete history (small geometry): append 3, consume 1, restart, count = 2; consume 2
+across a second restart, count = 0 -/
+example : runR smallCfg [.op (.batch ⟨0, false⟩ [⟨3000, 1⟩, ⟨2000, 2⟩, ⟨0, 0⟩]), .op (.next ⟨0, false⟩ true), .restart,
+    .op (.count ⟨0, false⟩), .op (.next ⟨0, false⟩ true), .restart, .op (.next ⟨0, false⟩ true), .op (.count ⟨0, false⟩)] =
+    [.ok, .entry (some ⟨3000, 1⟩), .ok, .num 2, .entry (some ⟨2000, 2⟩), .ok, .entry (some ⟨0, 0⟩), .num 0] := by decide +kernel
 
 /-! Non-vacuity: counts along a concrete history (small geometry), evaluated by the kernel. -/
 example : run smallCfg [.batch ⟨0, false⟩ [⟨3000, 1⟩, ⟨2000, 2⟩, ⟨0, 0⟩], .next ⟨0, false⟩ false, .count ⟨0, false⟩,
